@@ -55,13 +55,17 @@ def apply_impl(s, op):
     elif k == 'domset':
         if s.domain is None: return False
         s.domain.dr = op[1]                       # IN-PLACE edit of the Domain object the System holds
-    elif k == 'dens': s.density[T[op[1]]] = op[2]
-    elif k == 'diam': s.diameter[T[op[1]]] = op[2]
-    elif k == 'potall': s.potential[s.types, s.types] = G.mk_pot(op[1])
-    elif k == 'cloall': s.closure[s.types, s.types] = G.mk_clo(op[1])
-    elif k == 'pot': s.potential[T[op[1]], T[op[2]]] = None if op[3] is None else G.mk_pot(op[3])
-    elif k == 'clo': s.closure[T[op[1]], T[op[2]]] = None if op[3] is None else G.mk_clo(op[3])
-    elif k == 'om': s.omega[T[op[1]], T[op[2]]] = None if op[3] is None else G.mk_om(op[3])
+    elif k == 'dens': s.density[G.fresh(T[op[1]])] = op[2]
+    elif k == 'diam': s.diameter[G.fresh(T[op[1]])] = op[2]
+    elif k in ('potall', 'cloall', 'pot', 'clo', 'om'):
+        mk = {'potall': G.mk_pot, 'pot': G.mk_pot, 'cloall': G.mk_clo, 'clo': G.mk_clo, 'om': G.mk_om}[k]
+        table = {'potall': s.potential, 'pot': s.potential, 'cloall': s.closure, 'clo': s.closure, 'om': s.omega}[k]
+        if k in ('potall', 'cloall'):
+            o_ = mk(op[1]); table[s.types, s.types] = o_; G.scramble(o_)
+        elif op[3] is None: table[T[op[1]], T[op[2]]] = None
+        else:
+            # the table keeps its own copy: the caller's object is re-used afterwards with other parameters
+            o_ = mk(op[3]); table[G.fresh(T[op[1]]), G.fresh(T[op[2]])] = o_; G.scramble(o_)
     elif k == 'potsigma':
         U = s.potential[T[op[1]], T[op[2]]]
         if U is None: return False
